@@ -370,6 +370,20 @@ def case_bijector(case, res):
     if len(bad):
         i = bad[0]
         res.violation("bijector-fldj", f"forward_log_det_jacobian({xs[i]}) = {fldj[i]}, log|f'(x)| = {lf[i]}", {"x": float(xs[i]), "x64": x64})
+    # far out, against the closed form of the derivative, d/dx x(1+x^2)^(-1/2) = (1+x^2)^(-3/2), in float64 (the autodiff
+    # oracle above cancels there; the closed form does not): |x| up to 1e6 (x64: 1e12), on arrays that never went through
+    # forward() (nothing to answer from the bijector cache)
+    xb = np.exp(rng.uniform(np.log(30.0), np.log(1e12 if x64 else 1e6), size=200)) * rng.choice([-1, 1], size=200)
+    xbj = jnp.asarray(xb, ft)
+    xbs = np.asarray(xbj, np.float64)
+    fl_big = np.asarray(AlgebraicSigmoid().forward_log_det_jacobian(xbj, event_ndims=0), np.float64)
+    lf_big = -1.5 * np.log1p(xbs ** 2)
+    res.mon("bijector_log_det_jacobian", len(xb))
+    bad = np.where(off(fl_big, lf_big, tolj * (1 + np.abs(lf_big))))[0]
+    if len(bad):
+        i = bad[0]
+        res.violation("bijector-fldj", f"forward_log_det_jacobian({xbs[i]}) = {fl_big[i]}, log|f'(x)| = -1.5*log(1+x^2) = {lf_big[i]}",
+                      {"x": float(xbs[i]), "x64": x64})
     yq = jnp.asarray(np.clip(rng.uniform(-0.995, 0.995, size=n), -0.995, 0.995), ft)
     inv = jax.vmap(jax.grad(lambda t: b.inverse(t)))(yq)
     ildj = np.asarray(b.inverse_log_det_jacobian(yq, event_ndims=0), np.float64)
